@@ -279,6 +279,17 @@ def systematic_cases():
                                      raw_cond=HELPERS[""] + "run_command(name='t', run='true', deps=%r)\n" % order,
                                      extra_files={"cfg/defaults.cond": shared, "a/COND": "include(%r)\n" % inc + stmt + "run_experiment(name='u', run='true', args=['x'])\n",
                                                   "lib/COND": HELPERS["lib"] + "include(%r)\n" % inc + "run_experiment(name='u', run='true', args=BASE_ARGS, options=BASE_OPTIONS)\n"}))
+    # included files are ordinary Python: functions may use the file's own constants, imports and other functions
+    inc_fn = {"function uses a sibling constant": "BASE = 2\ndef scaled(x):\n    return BASE * x\nTHREADS = [scaled(1), scaled(2)]\nRUN = 'true'\n",
+              "function uses an import of the file": "import math\ndef up(x):\n    return math.ceil(x)\nTHREADS = [up(1.5)]\nRUN = 'true'\n",
+              "function calls another function of the file": "def one():\n    return 1\ndef two():\n    return one() + one()\nTHREADS = [two()]\nRUN = 'true'\n",
+              "comprehension over a sibling constant": "SIZES = [1, 2, 3]\nFACTOR = 10\nTHREADS = [s * FACTOR for s in SIZES]\nRUN = 'true'\n",
+              "function defined in the file, called from COND": "BASE = 3\ndef make(n):\n    return [BASE] * n\nTHREADS = [1]\nRUN = 'true'\n"}
+    for what, body in inc_fn.items():
+        tail = "run_experiment(name='t', run=RUN, args=THREADS)\n" if "called from COND" not in what else "run_experiment(name='t', run=RUN, args=make(2))\n"
+        cases.append(mk_case(None, True, "included file: " + what, raw_cond="include('inc.cond')\n" + HELPERS[""] + tail, extra_files={"inc.cond": body}))
+        cases.append(mk_case(None, True, "included file (project-relative, from a dependency's COND): " + what, raw_cond=HELPERS[""] + "run_command(name='t', run='true', deps=['//lib:u'])\n",
+                             extra_files={"cfg/inc.cond": body, "lib/COND": HELPERS["lib"] + "include('//cfg/inc.cond')\n" + tail.replace("name='t'", "name='u'")}))
     cases.append(mk_case(None, True, "include twice", raw_cond="include('inc.cond')\ninclude('inc.cond')\n" + HELPERS[""] + use, extra_files={"inc.cond": inc_ok}))
     cases.append(mk_case(None, False, "include missing file", raw_cond="include('nope.cond')\n" + HELPERS[""] + ok_t))
     cases.append(mk_case(None, False, "include missing project-relative", raw_cond="include('//nope/x.cond')\n" + HELPERS[""] + ok_t))
